@@ -31,6 +31,16 @@ PROPS = {
                  "only lg/dg of that species are written. Statement contract: a_llnl/b_llnl/bdot_llnl are the linear interpolation between table entries. "
                  "Pitzer and SIT sums, Gibbs-Duhem consistency, the DH A/B parameters and exchange/surface cases are NOT decided.",
          "note": "Doubles as reals; sqrt/log10 uninterpreted (sqrt(x)^2=x); std::vector model; error_msg(.., STOP) assumed not to return; search loop over the LLNL table over-approximated (havoc)."},
+ "C07": {"claimed": True, "engine": "B", "level": "other",
+         "technique": "generated per-member reset obligations from symbolic execution of the unload sequence over clang's AST",
+         "text": "One generated obligation per data member of class Phreeqc (593) and class IPhreeqc (49): after the unload sequence "
+                 "(clean_up + clean-up callees, init, initialize + init callees; IPhreeqc::UnLoadDatabase) executed from an arbitrary pre-state the member's value contains "
+                 "no pre-state symbol (scalars), or the container is cleared/reassigned; survivors named by the property must not be written. Catches a missing or "
+                 "mis-ordered reset line and a new member without one. Level 'other': term inspection, not a solver proof; behavioural equality with a fresh instance "
+                 "for all follow-up inputs is NOT decided.",
+         "note": "Calls other than the inlined callees are credited with nothing and assumed not to dirty members; loops with symbolic bounds are skipped. "
+                 "26+16 members are exempt with a written-before-read justification and 58 container/scratch members are dropped (not reset at the pinned commit, "
+                 "observability undecided): contracts/B/reset_exempt.json. Three genuine defects found by these obligations were repaired (known_findings.json)."},
  "C06": {"na_reason": "quantifies over thread schedules and bitwise reproducibility; code contracts and the VC generator are sequential and read doubles as reals; "
                       "the sequential remainder (unique ids, lock bracketing) belongs to C13 and says nothing about races"},
 }
